@@ -19,6 +19,8 @@ import (
 	"github.com/ThreeDotsLabs/watermill/message/router/middleware"
 	"github.com/ThreeDotsLabs/watermill/pubsub/gochannel"
 
+	pkgerrors "github.com/pkg/errors"
+
 	"wmverif/gc"
 	"wmverif/wh"
 )
@@ -69,6 +71,7 @@ type Scenario struct {
 	CloseSub  bool      `json:"k,omitempty"` // the reply Pub/Sub is closed before the callers end their contexts ("subscriber closed" path)
 	BlockReplies     bool `json:"b,omitempty"` // the reply Pub/Sub waits for its subscribers' acks (BlockPublishUntilSubscriberAck)
 	HandlerTimeoutMs int  `json:"m,omitempty"` // middleware.Timeout on the Router: the command message's context ends while ctxok/ctxerr handlers run
+	TwoHandlers      bool `json:"2,omitempty"` // odd requests are commands of a second type with their own handler (handlers run concurrently)
 	NoHook    bool      `json:"h,omitempty"` // OnListenForReplyFinished is not configured (nil): the end of the listeners is observed by the goroutine census
 	HookWait  bool      `json:"w,omitempty"` // the hook of a draining caller waits until that caller has seen the channel closed (order close → hook)
 	Tag       string    `json:"g,omitempty"`
@@ -148,6 +151,60 @@ type Cmd struct {
 	Req int `json:"req"`
 }
 
+// Cmd2 is a second command type: it has its own Router handler, which runs concurrently with the handler of Cmd.
+type Cmd2 struct {
+	Req int `json:"req"`
+}
+
+func reqOf(cmd any) int {
+	switch c := cmd.(type) {
+	case *Cmd:
+		return c.Req
+	case *Cmd2:
+		return c.Req
+	}
+	return -1
+}
+
+// errCauser is an error type of the application with a Cause method (what pkg/errors.Cause unwraps).
+type errCauser struct {
+	text  string
+	cause error
+}
+
+func (e *errCauser) Error() string { return e.text }
+func (e *errCauser) Cause() error  { return e.cause }
+
+var errKinds = []string{"new", "wrapw", "pkgwrap", "pkgwithmsg", "pkgstack", "causer", "pkgwrapf"}
+
+// mkErr builds a handler error of the given kind whose Error() is exactly text: the reply must carry that text whatever the
+// dynamic type of the error is.
+func mkErr(kind, text string) error {
+	parts := strings.Split(text, ": ")
+	nest := func(wrap func(error, string) error) error {
+		e := errors.New(parts[len(parts)-1])
+		for j := len(parts) - 2; j >= 0; j-- {
+			e = wrap(e, parts[j])
+		}
+		return e
+	}
+	switch kind {
+	case "wrapw":
+		return fmt.Errorf("%w", errors.New(text))
+	case "pkgwrap":
+		return nest(func(e error, m string) error { return pkgerrors.Wrap(e, m) })
+	case "pkgwrapf":
+		return nest(func(e error, m string) error { return pkgerrors.Wrapf(e, "%s", m) })
+	case "pkgwithmsg":
+		return nest(func(e error, m string) error { return pkgerrors.WithMessage(e, m) })
+	case "pkgstack":
+		return pkgerrors.WithStack(errors.New(text))
+	case "causer":
+		return &errCauser{text: text, cause: errors.New("root cause")}
+	}
+	return errors.New(text)
+}
+
 // Res is the handler result; a value starting with "bad" marshals fine but refuses to unmarshal at the caller
 // (the ReplyUnmarshalError path of the listener).
 type Res struct {
@@ -198,6 +255,7 @@ type runState struct {
 	idx  map[string]int
 	invs map[*message.Message]int
 	fail map[*message.Message]bool
+	firstAtt map[*message.Message]bool
 	nInv int64
 }
 
@@ -327,7 +385,7 @@ func replyFields(rs *runState, r requestreply.Reply[Res]) []string {
 func Run(sc Scenario) *Result {
 	n := len(sc.Reqs)
 	rec := gc.NewRec(sc.Seed, sc.Yield)
-	rs := &runState{sc: sc, rec: rec, opOf: map[int]string{}, idx: map[string]int{}, invs: map[*message.Message]int{}, fail: map[*message.Message]bool{}}
+	rs := &runState{sc: sc, rec: rec, opOf: map[int]string{}, idx: map[string]int{}, invs: map[*message.Message]int{}, fail: map[*message.Message]bool{}, firstAtt: map[*message.Message]bool{}}
 	res := &Result{Sc: sc, OpOf: rs.opOf}
 	baseline, _ := gc.GoroutinesIn("ListenForNotifications")
 
@@ -387,10 +445,17 @@ func Run(sc Scenario) *Result {
 		d := time.Duration(sc.TimeoutMs) * time.Millisecond
 		timeout = &d
 	}
+	var modify func(*message.Message, requestreply.PubSubBackendOnCommandProcessedParams) error // set below, before anything runs
 	backendCfg := requestreply.PubSubBackendConfig{
+		ModifyNotificationMessage: func(m *message.Message, p requestreply.PubSubBackendOnCommandProcessedParams) error {
+			if modify != nil {
+				return modify(m, p)
+			}
+			return nil
+		},
 		Publisher: &recordingPublisher{inner: replyPS, run: rs},
 		SubscriberConstructor: func(p requestreply.PubSubBackendSubscribeParams) (message.Subscriber, error) {
-			i := p.Command.(*Cmd).Req
+			i := reqOf(p.Command)
 			op := string(p.OperationID)
 			rs.mu.Lock()
 			rs.opOf[i] = op
@@ -418,7 +483,7 @@ func Run(sc Scenario) *Result {
 		ListenForReplyTimeout: timeout,
 		AckCommandErrors:      sc.AckErrs,
 		OnListenForReplyFinished: func(ctx context.Context, p requestreply.PubSubBackendSubscribeParams) {
-			i := p.Command.(*Cmd).Req
+			i := reqOf(p.Command)
 			rec.Log("fin", strconv.Itoa(i))
 			atomic.AddInt32(&finCount[i], 1)
 			once[i].Do(func() { close(fin[i]) })
@@ -450,22 +515,65 @@ func Run(sc Scenario) *Result {
 	}
 	marshaler := cqrs.JSONMarshaler{}
 	bus, _ := cqrs.NewCommandBusWithConfig(pubSub, cqrs.CommandBusConfig{
-		GeneratePublishTopic: func(cqrs.CommandBusGeneratePublishTopicParams) (string, error) { return "commands", nil },
+		GeneratePublishTopic: func(p cqrs.CommandBusGeneratePublishTopicParams) (string, error) {
+			return "commands_" + p.CommandName, nil
+		},
 		Marshaler:            marshaler, Logger: logger,
 	})
 	failBus, _ := cqrs.NewCommandBusWithConfig(failingPublisher{}, cqrs.CommandBusConfig{
-		GeneratePublishTopic: func(cqrs.CommandBusGeneratePublishTopicParams) (string, error) { return "commands", nil },
+		GeneratePublishTopic: func(p cqrs.CommandBusGeneratePublishTopicParams) (string, error) {
+			return "commands_" + p.CommandName, nil
+		},
 		Marshaler:            marshaler, Logger: logger,
 	})
 	proc, _ := cqrs.NewCommandProcessorWithConfig(router, cqrs.CommandProcessorConfig{
-		GenerateSubscribeTopic: func(cqrs.CommandProcessorGenerateSubscribeTopicParams) (string, error) { return "commands", nil },
+		GenerateSubscribeTopic: func(p cqrs.CommandProcessorGenerateSubscribeTopicParams) (string, error) {
+			return "commands_" + p.CommandName, nil
+		},
 		SubscriberConstructor: func(cqrs.CommandProcessorSubscriberConstructorParams) (message.Subscriber, error) {
 			return pubSub, nil
 		},
 		Marshaler: marshaler, Logger: logger,
 	})
-	handler := requestreply.NewCommandHandlerWithResult[Cmd, Res]("h", backend, func(ctx context.Context, cmd *Cmd) (Res, error) {
-		i := cmd.Req
+	// requests 2j and 2j+1 of a TwoHandlers scenario are paired when both succeed at their first delivery: handler 1 holds its
+	// reply between "operation id stamped" and "Publish" (ModifyNotificationMessage) until handler 2 has stamped the reply of the
+	// partner request – two OnCommandProcessed calls overlapping without a sleep.  Only handler 1 waits (bounded), so the two
+	// sequential handlers can never wait for each other.
+	paired := make([]bool, n)
+	inModify := make([]chan struct{}, n)
+	var onceMod = make([]sync.Once, n)
+	for i := 0; i < n; i++ {
+		inModify[i] = make(chan struct{})
+	}
+	if sc.TwoHandlers {
+		plain := func(q ReqSpec) bool {
+			return len(q.Outcomes) > 0 && q.Outcomes[0] == "ok" && q.Caller != "sendfail" && q.Caller != "replysendfail"
+		}
+		for i := 0; i+1 < n; i += 2 {
+			if plain(sc.Reqs[i]) && plain(sc.Reqs[i+1]) {
+				paired[i], paired[i+1] = true, true
+			}
+		}
+	}
+	const pairWait = 2 * time.Second
+	modify = func(msg *message.Message, p requestreply.PubSubBackendOnCommandProcessedParams) error {
+		i := reqOf(p.Command)
+		if i < 0 || i >= n || !paired[i] {
+			return nil
+		}
+		rs.mu.Lock()
+		first := rs.firstAtt[p.CommandMessage]
+		rs.mu.Unlock()
+		if !first {
+			return nil
+		}
+		onceMod[i].Do(func() { close(inModify[i]) })
+		if i%2 == 0 && !waitCh(inModify[i+1], pairWait) {
+			rec.Log("pw", strconv.Itoa(i))
+		}
+		return nil
+	}
+	handle := func(ctx context.Context, i int) (Res, error) {
 		att := int(atomic.AddInt32(&attempts[i], 1)) - 1
 		k := int(atomic.AddInt64(&rs.nInv, 1)) - 1
 		m := cqrs.OriginalMessageFromCtx(ctx)
@@ -478,6 +586,7 @@ func Run(sc Scenario) *Result {
 		}
 		rs.mu.Lock()
 		rs.invs[m] = k
+		rs.firstAtt[m] = att == 0
 		if outcome == "pubfail" {
 			rs.fail[m] = true
 		}
@@ -526,8 +635,9 @@ func Run(sc Scenario) *Result {
 			return Res{V: v}, ctx.Err()
 		case "err":
 			e := fmt.Sprintf("e%d.%d failed: %x", i, att, sc.Seed&0xff) + percentTexts[(int(sc.Seed&0xffff)+i+att)%len(percentTexts)]
-			rec.Log("hr", ks, is, "r", wh.HexS(v), "="+wh.HexS(e))
-			return Res{V: v}, errors.New(e)
+			he := mkErr(errKinds[(int(sc.Seed>>8&0xffff)+i+att)%len(errKinds)], e)
+			rec.Log("hr", ks, is, "r", wh.HexS(v), "="+wh.HexS(he.Error()))
+			return Res{V: v}, he
 		case "bad":
 			v = "bad" + v
 			rec.Log("hr", ks, is, "r", wh.HexS(v), "-")
@@ -539,8 +649,14 @@ func Run(sc Scenario) *Result {
 			rec.Log("hr", ks, is, "r", wh.HexS(v), "-")
 			return Res{V: v}, nil
 		}
+	}
+	handler := requestreply.NewCommandHandlerWithResult[Cmd, Res]("h", backend, func(ctx context.Context, cmd *Cmd) (Res, error) {
+		return handle(ctx, cmd.Req)
 	})
-	if err := proc.AddHandlers(handler); err != nil {
+	handler2 := requestreply.NewCommandHandlerWithResult[Cmd2, Res]("h2", backend, func(ctx context.Context, cmd *Cmd2) (Res, error) {
+		return handle(ctx, cmd.Req)
+	})
+	if err := proc.AddHandlers(handler, handler2); err != nil {
 		res.Stuck = append(res.Stuck, "setup: "+err.Error())
 		return res
 	}
@@ -633,7 +749,7 @@ func Run(sc Scenario) *Result {
 				if spec.Caller == "replysendfail" {
 					rbus = failBus // the command cannot be sent: SendWithReply returns only an error, the caller has nothing to cancel
 				}
-				r, err := requestreply.SendWithReply[Res](parent, rbus, backend, &Cmd{Req: i})
+				r, err := requestreply.SendWithReply[Res](parent, rbus, backend, cmdFor(sc, i))
 				if spec.Caller == "replysendfail" {
 					markSent() // returned at once: only now may the controller go on (e.g. close the reply Pub/Sub)
 				}
@@ -660,7 +776,7 @@ func Run(sc Scenario) *Result {
 				theBus = failBus
 				rec.Log("cy", is) // SendWithReplies itself cancels the context when sending fails
 			}
-			ch, cancel, err := requestreply.SendWithReplies[Res](parent, theBus, backend, &Cmd{Req: i})
+			ch, cancel, err := requestreply.SendWithReplies[Res](parent, theBus, backend, cmdFor(sc, i))
 			markSent()
 			if err != nil {
 				rec.Log("sr", is, "err")
@@ -1133,6 +1249,9 @@ func Emit(out *wh.Out, res *Result) {
 	if sc.BlockReplies {
 		out.Count("reply-pubsub-waits-for-acks")
 	}
+	if sc.TwoHandlers {
+		out.Count("two-command-handlers")
+	}
 	if sc.HandlerTimeoutMs > 0 {
 		out.Count("router-timeout-middleware")
 	}
@@ -1158,6 +1277,9 @@ func Emit(out *wh.Out, res *Result) {
 			out.Count("replies." + e.F[1])
 		case "pk":
 			out.Count("parked-with-arrival")
+		case "pw":
+			out.Count("pair-rendezvous-timed-out")
+			out.Note("pair rendezvous timed out for request " + e.F[0] + " :: " + sc.Describe())
 		case "note":
 			out.Note(strings.Join(e.F, " ") + " :: " + sc.Describe())
 		}
@@ -1177,3 +1299,10 @@ func (failingPublisher) Publish(string, ...*message.Message) error {
 	return errors.New("scripted command publish failure")
 }
 func (failingPublisher) Close() error { return nil }
+
+func cmdFor(sc Scenario, i int) any {
+	if sc.TwoHandlers && i%2 == 1 {
+		return &Cmd2{Req: i}
+	}
+	return &Cmd{Req: i}
+}
